@@ -241,7 +241,7 @@ func main() {
 		if i == len(list)-1 {
 			sep = ""
 		}
-		fmt.Fprintf(&b, "  mk_loc %s %v [%s]%s\n", coqStr(l.ID), l.SelfSync, strings.Join(ws, "; "), sep)
+		fmt.Fprintf(&b, "  mk_loc %s %s %v [%s]%s\n", coqStr(l.ID), coqStr(l.Type), l.SelfSync, strings.Join(ws, "; "), sep)
 	}
 	b.WriteString("].\n")
 	if err := os.WriteFile(filepath.Join(*out, *name+".v"), []byte(b.String()), 0o644); err != nil {
